@@ -153,7 +153,7 @@ func init() {
 		spec := &mc.Spec{
 			Level: "exploration",
 			Rule: "seam A (ptracer.Tracer, scripted Handle): every program of ≤ maxOps operations over {mkdirat, unlinkat, openat(O_CREAT) (traced), getpid (allowed), getuid (neither: the filter kills)} × issuer ∈ {main, forked child, vforked child, thread, grandchild} " +
-				"× every map traced-op → {allow, ban, kill} × tracee state {ordinary, %ds/%es = 0x28 (loadable by the program, refused by PTRACE_SETREGS), path strings in a write-only page (readable for the kernel, not for process_vm_readv)}; seam B (runner/ptrace.Runner, scripted policy): mkdirat / unlinkat / renameat2 / linkat with every per-path verdict pair and a traced call judged by name (getppid) with every verdict, × the runner's debug switches ShowDetails × Unsafe (Unsafe softens a kill reached by name into a ban and nothing else; ShowDetails changes nothing) × Runner value fresh / reused after a run under another handler and other switches. Oracle: reference interpreter of the script (return values from the program's own log, side effects read from the file system after the run). " +
+				"× every map traced-op → {allow, ban, kill} × tracee state {ordinary, %ds/%es = 0x28 (loadable by the program, refused by PTRACE_SETREGS), path strings in a write-only page (readable for the kernel, not for process_vm_readv), path strings straddling a page boundary}; seam B (runner/ptrace.Runner, scripted policy): mkdirat / unlinkat / renameat2 / linkat with every per-path verdict pair and a traced call judged by name (getppid) with every verdict, × the runner's debug switches ShowDetails × Unsafe (Unsafe softens a kill reached by name into a ban and nothing else; ShowDetails changes nothing) × Runner value fresh / reused after a run under another handler and other switches. Oracle: reference interpreter of the script (return values from the program's own log, side effects read from the file system after the run). " +
 				"non-trivial: at least one traced op with a non-allow verdict or a non-main issuer; distinct = (program, issuer, verdict map, observation)",
 			Bound:       map[string]any{"max_ops": maxOps},
 			Assumptions: []string{"programs are sequential (a parent waits for its sub-script), so 'later operation' is well defined", "a filter kill inside a child process ends only that child; the Disallowed Syscall verdict is required only when the main thread group is killed"},
@@ -202,7 +202,7 @@ func c03tracer(x *mc.X, maxOps int) {
 	// data descriptor with requested privilege level 0) but PTRACE_SETREGS refuses to write back
 	segs := "ordinary"
 	if n > 0 {
-		segs = x.Pick("tracee-state", "ordinary", "ds-es-0x28", "paths-in-a-write-only-page")
+		segs = x.Pick("tracee-state", "ordinary", "ds-es-0x28", "paths-in-a-write-only-page", "paths-straddling-a-page-boundary")
 	}
 	x.Note("seam", "tracer")
 	x.Note("issuer", issuer)
@@ -245,6 +245,13 @@ func c03tracer(x *mc.X, maxOps int) {
 		// same, process_vm_readv does not (the tracer has to fall back to PTRACE_PEEKDATA)
 		for i := range ops {
 			script = strings.ReplaceAll(script, fmt.Sprintf(" -100 $%d ", i), fmt.Sprintf(" -100 @wo$%d ", i))
+		}
+	}
+	if segs == "paths-straddling-a-page-boundary" {
+		// half of each path string lies before a page boundary, the rest behind it (both pages readable): the tracer needs
+		// two reads of tracee memory for it
+		for i := range ops {
+			script = strings.ReplaceAll(script, fmt.Sprintf(" -100 $%d ", i), fmt.Sprintf(" -100 @stm$%d ", i))
 		}
 	}
 	script = decls.String() + "S " + filepath.Join(dir, "tail") + "\n" + script + "X 258 -100 $" + strconv.Itoa(n) + " 0755\nQ 0\n"
